@@ -71,7 +71,7 @@ func c25roundtrip(s string, ascii bool) {
 // H_C25_rune4: four bytes starting with a 4-byte-rune lead byte (0xf0..0xff): every supplementary
 // plane code point (\U escapes in ASCII mode), and every malformed continuation.
 //
-//verif:props=C25,C24 bounds=4-bytes-with-lead-byte>=0xf0;both-outputASCII-settings maxsteps=4000000
+//verif:props=C25,C24 bounds=4-bytes-with-lead-byte>=0xf0;both-outputASCII-settings maxsteps=4000000 deadline=1800
 func H_C25_rune4() {
 	s := nd.StringN(4)
 	nd.Assume(s[0] >= 0xf0)
@@ -81,7 +81,7 @@ func H_C25_rune4() {
 // H_C25_rune3: three bytes starting with a 3-byte-rune lead byte (0xe0..0xef): the BMP above
 // U+07FF including surrogate encodings (invalid) and \u escapes.
 //
-//verif:props=C25,C24 bounds=3-bytes-with-lead-byte-0xe0..0xef;both-outputASCII-settings maxsteps=4000000
+//verif:props=C25,C24 bounds=3-bytes-with-lead-byte-0xe0..0xef;both-outputASCII-settings maxsteps=4000000 deadline=1800
 func H_C25_rune3() {
 	s := nd.StringN(3)
 	nd.Assume(s[0] >= 0xe0 && s[0] <= 0xef)
@@ -91,7 +91,7 @@ func H_C25_rune3() {
 // H_C25_decode_total: parseString on an arbitrary literal never panics; when it accepts, the
 // literal was delimited by matching quotes and decoding consumed it entirely.
 //
-//verif:props=C25,C26 bounds=quote+all-byte-strings<=4(quick)/5(thorough) maxsteps=4000000
+//verif:props=C25,C26 bounds=quote+all-byte-strings<=4(quick)/5(thorough) maxsteps=4000000 deadline=900
 func H_C25_decode_total() {
 	N := 4
 	if nd.Thorough() {
